@@ -73,6 +73,7 @@ type Scenario struct {
 	PostYield   bool           `json:"post_yield,omitempty"`
 	Pace        int            `json:"pace_ms,omitempty"`       // tcp: the server keeps its default timeouts (2 s for the first message of a connection, 8 s idle between messages) and every peer pauses this long before each frame after its first: long-lived connections, each message well inside the idle timeout
 	Anonymous   bool           `json:"anonymous,omitempty"`     // udp: the socket is of a kind whose peers have no address (unixgram, unbound clients): reads report none, replies cannot be routed - they are collected where the socket refuses them
+	Async       bool           `json:"async,omitempty"`         // tcp: the handler answers every other accepted request from a task of its own, after it has returned (the server is reading - and rejecting - the messages behind it meanwhile); peers read what they are sent
 	FinWithData bool           `json:"fin_with_data,omitempty"` // tcp: peers end their sending right behind their last frame, and the read that returns the last octets returns io.EOF with them      // the return of every transport operation is a scheduling point of its own
 	Msgs        []InMsg        `json:"msgs,omitempty"`
 	Initial     map[string]int `json:"initial,omitempty"` // mux: patterns registered before the tasks start
@@ -216,6 +217,12 @@ func Gen(seed uint64, tier string) any {
 	}
 	if sc.Transport == "udp" && sc.Soak == "" && core.Chance(r, 10) {
 		sc.Anonymous, sc.UDPSock = true, false
+	}
+	if sc.Transport == "tcp" && sc.StallAt == 0 && sc.CutAt == 0 && !sc.FinWithData && core.Chance(r, 20) {
+		// (not with peers that end their sending early: the server closes such a connection as soon as it has
+		// read the end, and a reply still to be written by another task meets that close - a stream's writer
+		// belongs to its connection)
+		sc.Async = true
 	}
 	if core.Chance(r, 12) {
 		sc.Transient = append(sc.Transient, r.IntN(3))
@@ -505,7 +512,26 @@ type recHandler struct{ a *adm }
 func (h recHandler) ServeDNS(w dns.ResponseWriter, r *dns.Msg) {
 	m := new(dns.Msg)
 	m.SetReply(r)
+	if h.a.sc.Async && h.a.sc.Transport == "tcp" && r.Id%2 == 0 {
+		h.a.k.Go("async", &lateReply{h.a, w, m, 1 + int(r.Id%3)})
+		h.a.k.Bump("cover.reply_from_another_task")
+		return
+	}
 	w.WriteMsg(m)
+}
+
+// lateReply writes a reply from a task of its own, a few steps after the handler has returned.
+type lateReply struct {
+	a     *adm
+	w     dns.ResponseWriter
+	m     *dns.Msg
+	steps int
+}
+
+//go:norace
+func (l *lateReply) RunEvent(time.Time) {
+	l.a.k.WaitSteps("async.wait", l.steps, time.Millisecond)
+	l.w.WriteMsg(l.m)
 }
 
 type peerTask struct {
@@ -599,6 +625,18 @@ func (p *peerTask) RunEvent(time.Time) {
 		k.Bump("fault.peer_ends_sending_behind_last_frame")
 	}
 	// leave the server time to work through everything, then go away
+	if sconn != nil && a.sc.Async {
+		// (a peer that reads what it is sent: the replies written by other tasks reach it before it leaves)
+		sconn.SetDeadline(time.Now().Add(2 * time.Second))
+		buf := make([]byte, 4096)
+		for {
+			if _, err := sconn.Read(buf); err != nil {
+				break
+			}
+		}
+		sconn.Close()
+		return
+	}
 	k.Sleep("peer.linger", 2*time.Second)
 	if sconn != nil {
 		sconn.Close()
